@@ -213,8 +213,15 @@ def do_op(s, mc, op, rng):
         if s.cfg.get("check_ip_off") and rng.random() < 0.5:
             alt = ("fd53::3:%x" if ":" in mc.ip else "10.53.3.%d") % rng.randint(1, 3)     # same address family as the session
         for _ in range(rng.randint(1, 4)):
-            mc.redeliver(back=rng.randint(1, min(6, max(1, len(mc.dgrams)))), new_id=rng.random() < 0.5,
-                         src_ip=alt, swapcase=rng.random() < 0.3)
+            if rng.random() < 0.25:
+                # the name of a query that may still be held, asked again under another record type from another port
+                mc.query(mc.ping_labels())
+                k.run(k.now + rng.choice([10, 2000]))
+                mc.redeliver(back=1, new_id=True, src_ip=alt, sport=rng.choice([40007, 40008]),
+                             retype=rng.choice([t for t in proto.QTYPES.values() if t != mc.qtype]))
+            else:
+                mc.redeliver(back=rng.randint(1, min(6, max(1, len(mc.dgrams)))), new_id=rng.random() < 0.5,
+                             src_ip=alt, swapcase=rng.random() < 0.3)
             k.run(k.now + rng.choice([10, 5000, 50000]))
         mc.drain()
     elif op == "idle":
@@ -233,8 +240,22 @@ def do_op(s, mc, op, rng):
             mc.ask([rng.choice([b"ns", b"NS", b"nS"])] + mc.domain, proto.T_A, timeout_us=300000)
         elif which == 3:
             mc.ask([rng.choice([b"www", b"WwW"])] + mc.domain, proto.T_A, timeout_us=300000)
-        else:
+        elif rng.random() < 0.5:
             mc.ask([b"abc", b"def"] + mc.domain, proto.T_NS, timeout_us=300000)
+        else:
+            # a resolver checking the delegation for a full-length tunnel name (data queries are ~250 characters)
+            room = rng.choice([253, 252, 250, 245, 240, 239, 238, 237, 200]) - len(b".".join(mc.domain)) - 1
+            labels = []
+            while room > 0:
+                l = min(63, room, rng.choice([63, 63, 50, 20]))
+                if room - l == 1:
+                    l -= 1
+                if l <= 0:
+                    break
+                labels.append(bytes(rng.choice(b"abcdefghijklmnopqrstuvwxyz012345") for _ in range(l)))
+                room -= l + 1
+            if labels:
+                mc.ask(labels + mc.domain, proto.T_NS, timeout_us=300000)
     elif op == "hs":
         which = rng.randrange(6)
         if which == 0:
